@@ -176,6 +176,63 @@ fn tie_cluster<const D: usize>(id: &str, rng: &mut Rng, out: &mut Out) {
     out.end();
 }
 
+/// listing-order independence under EVERY option combination (initial-simplex strategy x retry
+/// policy x sorted ordering), on inputs where it matters: cocircular / cospherical clusters (the
+/// triangulation is not unique, so any dependence on the order of insertion shows) arranged so that
+/// the balanced initial-simplex pick (lexicographic minimum, the point farthest from it, ...) is
+/// degenerate - the primary attempt fails and the fallback path runs - plus the random families.
+/// Outcome class (Ok / Err kind) and cell set must be the same for every listing.
+fn listing_sweep<const D: usize>(id: &str, rng: &mut Rng, out: &mut Out, random_family: bool) {
+    let pts: Vec<Vec<f64>> = if random_family {
+        let n = D + 2 + rng.below(4) as usize;
+        gens::point_set(rng, D, n).pts
+    } else {
+        // a tilted square (cocircular) around (2,1) containing the lexicographic minimum (0,..,0),
+        // lifted by one apex per extra dimension; its mirror image through M; and M itself:
+        // (0,..,0), its mirror and M are collinear
+        let s = 1.0 + rng.below(3) as f64;
+        let mut cl: Vec<Vec<f64>> = vec![vec![0.0, 0.0], vec![1.0, 3.0], vec![4.0, 2.0], vec![3.0, -1.0]];
+        for p in cl.iter_mut() { p.resize(D, 0.0); }
+        for a in 2..D { let mut q = vec![2.0, 1.0]; q.resize(D, 0.0); q[a] = 2.0; cl.push(q); }
+        let mut m = vec![12.0, 4.0]; m.resize(D, 0.0); for a in 2..D { m[a] = 6.0; }
+        let mut all: Vec<Vec<f64>> = cl.clone();
+        for p in &cl { all.push((0..D).map(|a| 2.0 * m[a] - p[a]).collect()); }
+        all.push(m);
+        for p in all.iter_mut() { for x in p.iter_mut() { *x *= s; } }
+        all
+    };
+    let mut r2 = Rng::new(55);
+    let uu: Vec<uuid::Uuid> = pts.iter().map(|_| r2.uuid()).collect();
+    let vs = mk::<D>(&pts, &uu);
+    let mut problems: Vec<String> = Vec::new();
+    let mut nerr = 0usize;
+    let mut nok = 0usize;
+    for order in 1..4u8 {
+        for simplex in 0..2u8 {
+            for retry in 0..4u8 {
+                let opts = Opts { order, dedup: 0, simplex, retry };
+                let base = build_sig::<D>(&vs, &opts, false);
+                if base.starts_with("ERR") { nerr += 1; } else { nok += 1; }
+                for _ in 0..(if random_family { 3 } else { 6 }) {
+                    let mut idx: Vec<usize> = (0..vs.len()).collect();
+                    rng.shuffle(&mut idx);
+                    let pv: Vec<V<D>> = idx.iter().map(|&i| vs[i]).collect();
+                    let sp = build_sig::<D>(&pv, &opts, false);
+                    if sp != base {
+                        let kind = |s: &str| if s.starts_with("ERR") { "Err" } else { "Ok" };
+                        problems.push(format!("{}: the result depends on the caller's listing order ({} vs {})", opts.tag(), kind(&base), kind(&sp)));
+                        break;
+                    }
+                }
+            }
+        }
+    }
+    out.case(id, "chk", &format!("D={D} what=listing_sweep fam={} ok={nok} err={nerr}", if random_family { "random" } else { "mirror" }));
+    for p in &pts { out.line(&format!("p {}", hxs(p))); }
+    if !problems.is_empty() { problems.truncate(4); out.obs("fail", &problems.join(" / ")); } else { out.obs("same", "1"); }
+    out.end();
+}
+
 pub fn run(cfg: &Cfg, rng: &mut Rng, out: &mut Out) {
     if let Some(i) = cfg.extra.iter().position(|x| x == "--child") { child(&cfg.extra[i..]); std::process::exit(0); }
     let thorough = cfg.tier == "thorough";
@@ -183,6 +240,13 @@ pub fn run(cfg: &Cfg, rng: &mut Rng, out: &mut Out) {
         tie_cluster::<2>(&format!("tc2_{i}"), rng, out);
         tie_cluster::<3>(&format!("tc3_{i}"), rng, out);
         tie_cluster::<4>(&format!("tc4_{i}"), rng, out);
+    }
+    for i in 0..(if thorough { 12 } else { 3 }) {
+        listing_sweep::<2>(&format!("ls2_{i}"), rng, out, false);
+        listing_sweep::<3>(&format!("ls3_{i}"), rng, out, false);
+        listing_sweep::<2>(&format!("lr2_{i}"), rng, out, true);
+        listing_sweep::<3>(&format!("lr3_{i}"), rng, out, true);
+        if i == 0 || thorough { listing_sweep::<4>(&format!("ls4_{i}"), rng, out, false); listing_sweep::<4>(&format!("lr4_{i}"), rng, out, true); }
     }
     let n = if thorough { 300 } else { 72 };
     for i in 0..n {
